@@ -119,11 +119,16 @@ def gen_program(rng, mode):
             k = rng.choice([1, 2, 3, 4])
             if mode == "rmw":
                 # read-modify-write on overlapping rows
-                if r < 0.45:
+                if r < 0.38:
                     stmts.append(("SELECT a FROM t WHERE k = %d;" % k, [], "S {T} 1 c0 eq i:%d" % k, "read-pk"))
-                elif r < 0.9:
+                elif r < 0.76:
                     nv = rng.choice([10, 20, 30, 40])
                     stmts.append(("UPDATE t SET a = %d WHERE k = %d;" % (nv, k), ["U {T} 1=i:%d c0 eq i:%d" % (nv, k)], None, "update-key"))
+                elif r < 0.86:
+                    # the whole table through the sequential scan: it meets every row another transaction has changed or delete-marked
+                    stmts.append(("SELECT k,a FROM t WHERE k < 100 OR k < 100;", [], "S {T} 0,1 c0 lt i:100 c0 lt i:100 or", "read-seq"))
+                elif r < 0.93:
+                    stmts.append(("DELETE FROM t WHERE k = %d;" % k, ["D {T} c0 eq i:%d" % k], None, "delete"))
                 else:
                     stmts.append(("SELECT k,a FROM t WHERE a >= %d AND a <= 30;" % v, [], "S {T} 0,1 c1 ge i:%d c1 le i:30 and" % v, "read-range"))
                 continue
